@@ -49,11 +49,16 @@ def _recase(s, mode, rng, region=None):
     return s
 
 
-def draw_spec(rng, tier="quick"):
+OTHER_GEOMETRIES = ("SapI", "HgaI", "BbvI", "EarI", "BspQI")     # overhangs of 3 and 5 letters, a cut 8 letters away from the site
+
+
+def draw_spec(rng, tier="quick", enzyme=None):
     """plain-data description of one scenario"""
-    from Bio.Restriction import BsaI, BpiI, BsmBI
+    import Bio.Restriction as R_
     ename = rng.choice(["BsaI", "BsaI", "BpiI", "BsmBI"])
-    e = dict(BsaI=BsaI, BpiI=BpiI, BsmBI=BsmBI)[ename]
+    if enzyme is not None:
+        ename = enzyme
+    e = getattr(R_, ename)
     site, a, k = enzyme_geometry(e)
     chain = rng.choice([1, 2, 2, 3])
     scar = chain >= 2 and len(site) == k + 2 and rng.random() < 0.15
@@ -262,6 +267,11 @@ def build(ns, spec, override=None):
                 quals["citation"] = ["[%d]" % (c + 1) for c in cs]
                 cites = [refkey(refs[c]) for c in cs]
             feats.append(SeqFeature(loc, type=ftype, id=full, qualifiers=quals))
+            if (len(full) + 3 * j + spec["feat_seed"]) % 4 == 0:
+                # qualifiers kept in an auto-vivifying mapping (assigned after construction, as code that collects qualifiers with
+                # `defaultdict(list)` does): merely *looking up* a missing key in it creates the key
+                import collections
+                feats[-1].qualifiers = collections.defaultdict(list, quals)
             a0, L = p["inside"]
             inside = in_chain and all(((st - a0) % n) + ln <= L for (st, ln, sd) in parts)
             if inside:
@@ -527,6 +537,16 @@ def scenarios(ns, seed, count, tier="quick"):
         if spec is None:
             continue
         out.append(spec)
+    # the same dimensions over enzymes of other geometries (a stream of their own: the draws above stay what they were)
+    extra, t = 0, 0
+    while extra < max(4, count // 6) and t < count:
+        rng = random.Random(seed * 100003 + 500000 + t)
+        spec = draw_spec(rng, tier, enzyme=OTHER_GEOMETRIES[t % len(OTHER_GEOMETRIES)])
+        t += 1
+        if spec is None:
+            continue
+        out.append(spec)
+        extra += 1
     return out
 
 
